@@ -599,7 +599,10 @@ class Vector():
 		"""
 
 		_alias = _ALIAS_TRACKER
-		_alias.check_writable(self, id(self._underlying))
+		if self._underlying:
+			# every empty vector holds the interpreter's single () object; nothing can be
+			# written into it, so sharing it is not aliasing
+			_alias.check_writable(self, id(self._underlying))
 
 		# === Fast precomputed checks ===
 		key = self._check_duplicate(key)
